@@ -9,6 +9,8 @@ C text of the working tree on every run.
                                     dealloc(destruct(.))                             (D18 repair)
   gc_set_defers_in_sweep   : bool   GC_Set does not start a threshold collection while a sweep is
                                     running (gc->freelist non-NULL)                  (D22 repair)
+  main_registers_atexit / main_tears_down_after_return : bool
+                                    how the `main` wrapper arranges the collector's teardown
   gc_life_shape            : bool   conjunction of the remaining fixed shapes (listed below); a
                                     shape that no longer matches makes it false and names itself
                                     in gc_life_shape_failed
@@ -121,8 +123,17 @@ def generate(repo, emit, src, func_body):
     h = src('include/Cello.h')
     m = re.search(r'#define main\(\.\.\.\)(.*?)int Cello_Main\(__VA_ARGS__\)', h, re.S)
     mm = re.sub(r'[\s\\]+', ' ', m.group(1)) if m else ''
-    need('main macro creates the collector and registers Cello_Exit',
-         'new_raw(GC, $R(&bottom)); atexit(Cello_Exit);' in mm)
+    need('main macro creates the collector', 'var bottom = NULL; new_raw(GC, $R(&bottom));' in mm)
+    # how the wrapper arranges the teardown (two switches of Lifecycle.terminate)
+    i_main = mm.find('Cello_Main(argc, argv)')
+    reg = i_main >= 0 and 'atexit(Cello_Exit);' in mm[:i_main]
+    after = i_main >= 0 and re.search(r'\bCello_Exit\(\)\s*;', mm[i_main:]) is not None
+    emit('main_registers_atexit', None if not m else
+         'Definition main_registers_atexit : bool := %s.   (* source: `main` macro of Cello.h registers Cello_Exit with atexit before Cello_Main *)'
+         % ('true' if reg else 'false'))
+    emit('main_tears_down_after_return', None if not m else
+         'Definition main_tears_down_after_return : bool := %s.   (* source: `main` macro calls Cello_Exit() after Cello_Main returned *)'
+         % ('true' if after else 'false'))
 
     emit('gc_life_shape', 'Definition gc_life_shape : bool := %s.\n(* shapes that no longer match: %s *)'
          % ('true' if not failed else 'false', '; '.join(failed) if failed else 'none'))
